@@ -409,6 +409,8 @@ class SpyBackend(RunnerBackend):
 
     def build_runner(self, *, context: LabContext, storage: Storage, max_workers: Optional[int]) -> SpyRunner:
         from labtech.runners import ForkRunnerBackend, SerialRunnerBackend, SpawnRunnerBackend
-        backend = {'serial': SerialRunnerBackend, 'fork': ForkRunnerBackend, 'spawn': SpawnRunnerBackend}[self.kind]()
-        real = backend.build_runner(context=context, storage=storage, max_workers=max_workers)
+        if getattr(self, 'real_backend', None) is None:
+            # one real backend object per Lab, exactly as Lab.__init__ creates it
+            self.real_backend = {'serial': SerialRunnerBackend, 'fork': ForkRunnerBackend, 'spawn': SpawnRunnerBackend}[self.kind]()
+        real = self.real_backend.build_runner(context=context, storage=storage, max_workers=max_workers)
         return SpyRunner(real, self.ctl, max_workers, serial=(self.kind == 'serial'))
